@@ -12,6 +12,14 @@ CHECKS = {
    note="Trusted: TLC, the hand-written Codec.tla (cross-checked against Python's base64 for the standard alphabet). "
         "3-byte groups are covered over boundary byte values, not all 2^24.",
    technique="TLA+ spec (Codec.tla) model-checked with TLC + spec-to-implementation replay + trace validation"),
+ "C14": dict(cat=MC, design="DESIGN.md §3 C14",
+   text="Totp.tla defines the result of every match attempt (window, skew, last counter, earliest match, used/invalid/malformed); "
+        "TLC checks on all histories within the bounds that accepted counters strictly increase and that each result is classified as "
+        "stated; every explored/simulated attempt is executed as a real TOTP.match call through an offset refinement that places the "
+        "model on 2^31/2^40-second boundaries and on real code collisions, and recorded realistic call sequences are validated as spec behaviours.",
+   note="Trusted: TLC, Totp.tla, stdlib hmac as HOTP reference for the code table (HMAC correctness is C13's subject). "
+        "Bounds: periods 1..5 model units (x1/10/30 s), windows 0..7, histories <= 6 attempts in the model; 14 calls per recorded trace.",
+   technique="TLA+ spec (Totp.tla MatchResult) model-checked with TLC + spec-to-implementation replay + trace validation"),
 }
 PENDING = {}
 props = [json.loads(l) for l in open(os.path.join(HERE, "properties.jsonl"))]
